@@ -34,7 +34,8 @@ ASSUMPTIONS = [
 
 PF = gen.Profile(resolutions=[30, 60], min_tasks=1, max_tasks=5, max_res=2, depth=2, subslot=False, deps=0.4, weeks=(2, 3), max_slots=6, leaves=False)
 
-BAD_NAMES = ["Status: weekly", "what*ever", "../escaped", "sub/dir/rep", "/tmp/verif_c20_escape", "a|b", "ok name", "..", "trail/"]
+BAD_NAMES = ["Status: weekly", "what*ever", "../escaped", "sub/dir/rep", "/tmp/verif_c20_escape", "a|b", "ok name", "..", "trail/",
+             "sub/../../leak", "a/b/../../../../cwd/leak2", "x/../y", "./../z"]
 
 
 @st.composite
@@ -70,6 +71,12 @@ def batches(draw, max_n):
             invs.append({"args": ["report", "-o", "p0.tjp", name], "stdin": None, "desc": "existing_out:" + desc})
         elif kind == 2:
             invs.append({"args": ["report"] + (["--csv"] if csvf else []) + ["-"], "stdin": data, "desc": "stdin:" + desc})
+        elif kind == 3:
+            # explicit output file (always --force so that the outcome does not depend on the order inside a batch)
+            target = draw(st.sampled_from(["res0", "res1"])) + draw(st.sampled_from([".json", ".csv", "", ".out"]))
+            invs.append({"args": ["report"] + (["--csv"] if csvf else []) + ["--force", "-o", target, name], "stdin": None, "desc": "outfile:" + desc, "outfile": target})
+        elif kind == 4 and draw(st.booleans()):
+            invs.append({"args": ["report", "--force", "-o", "adir", name], "stdin": None, "desc": "outdir:" + desc, "mkdir": "adir"})
         else:
             invs.append({"args": ["report"] + (["--csv"] if csvf else []) + [name], "stdin": None, "desc": desc})
     stagger = [draw(st.integers(0, 40)) for _ in invs]
@@ -136,7 +143,10 @@ def eval_batch(case):
     try:
         for name, data, _d in case["inputs"]:
             sb.write(name, data)
+        if any(i.get("mkdir") for i in case["invs"]):
+            os.makedirs(os.path.join(sb.cwd, "adir"), exist_ok=True)
         base = climon.listing(sb.cwd)
+        outfile_content = {}
         # ---- solitary reference runs (with the history monitor) -----------------------------------
         solo = {}
         all_created = {}
@@ -148,6 +158,17 @@ def eval_batch(case):
             run = sb.run(inv["args"], stdin=inv["stdin"], strace=_STRACE)
             solo[k] = run
             where = f"solitary {inv['desc']} {' '.join(inv['args'])}"
+            of = inv.get("outfile")
+            if of and run.rc == 0:
+                # the file the user asked for is the one permitted change of the working directory
+                pth = os.path.join(sb.cwd, of)
+                if os.path.isfile(pth):
+                    with open(pth, "rb") as fh:
+                        outfile_content[k] = fh.read()
+                    os.unlink(pth)
+                    run.cwd_after = climon.listing(sb.cwd)
+                else:
+                    vs.append(Violation("outfile_missing", where, f"exit 0 but {of} was not written"))
             if run.cwd_after != base:
                 vs.append(Violation("cwd_changed", where, f"working directory now {sorted(set(run.cwd_after) ^ set(base))[:5]} differ (exit {run.rc})", {"desc": inv["desc"]}))
                 base = climon.listing(sb.cwd)
@@ -163,6 +184,10 @@ def eval_batch(case):
                         os.unlink(q)
             if _STRACE and run.trace:
                 created, removed, outside = analyse_trace(run.trace, sb)
+                if of:  # the file the user named with -o is the one legitimate write outside TMPDIR
+                    allowed = os.path.normpath(os.path.join(sb.cwd, of))
+                    outside = [o for o in outside if not o.endswith(" " + allowed)]
+                    created = [c for c in created if c != allowed]
                 if outside:
                     vs.append(Violation("write_outside_tmpdir", where, f"{outside[:4]}", {"desc": inv["desc"]}))
                 left = [p for p in created if p not in removed and os.path.exists(p)]
@@ -211,6 +236,22 @@ def eval_batch(case):
                 vs.append(Violation("concurrent_exit_differs", where, f"exit {rc} in the batch of {len(procs)}, {ref.rc} alone", {"desc": inv["desc"]}))
             elif out != ref.out:
                 vs.append(Violation("concurrent_output_differs", where, f"stdout differs from the solitary run ({len(out)} vs {len(ref.out)} bytes)", {"desc": inv["desc"]}))
+        # explicit output files of the batch: permitted, and equal to the solitary content when the target is unique
+        targets = {}
+        for inv in case["invs"]:
+            if inv.get("outfile"):
+                targets.setdefault(inv["outfile"], []).append(inv)
+        for tgt, users in targets.items():
+            pth = os.path.join(sb.cwd, tgt)
+            contents = {outfile_content.get(inv_key(u)) for u in users}
+            if os.path.isfile(pth):
+                with open(pth, "rb") as fh:
+                    got = fh.read()
+                os.unlink(pth)
+                if got not in contents:
+                    vs.append(Violation("concurrent_outfile_differs", f"batch -o {tgt}", f"content written in the batch of {len(procs)} matches none of the solitary runs that target it"))
+            elif any(solo[inv_key(u)].rc == 0 for u in users):
+                vs.append(Violation("outfile_missing", f"batch -o {tgt}", "no file although a run targeting it succeeded alone"))
         after_cwd = climon.listing(sb.cwd)
         after_tmp = climon.listing(sb.tmp)
         if after_cwd != base:
@@ -238,6 +279,46 @@ def eval_batch(case):
         sb.close()
 
 
+NAME_PROJECT = """project prj "P" 2025-01-06 +2w {
+}
+resource r0 "r0" {
+}
+task t0 "t0" {
+  effort 3h
+  allocate r0
+}
+taskreport own "%s" {
+  formats %s
+  columns id, end
+}
+"""
+
+
+def name_items(shard, nshards):
+    k = 0
+    for name in BAD_NAMES + ["plain", "UPPER lower", "dots.in.name", "-dash", "~tilde", "sub\\back", "tab\tname", "a/./b", "a//b", "../../../../../../tmp/verif_c20_escape"]:
+        for fmts in ("json", "csv", "json, csv"):
+            for csvf in (False, True):
+                if k % nshards == shard:
+                    yield (name, fmts, csvf)
+                k += 1
+
+
+def eval_name(item):
+    name, fmts, csvf = item
+    text = NAME_PROJECT % (name, fmts)
+    case = {"inputs": [("p0.tjp", text.encode(), "own:" + name)],
+            "invs": [{"args": ["report"] + (["--csv"] if csvf else []) + ["p0.tjp"], "stdin": None, "desc": "own:" + name},
+                     {"args": ["report"] + (["--csv"] if csvf else []) + ["-"], "stdin": text.encode(), "desc": "stdin own:" + name}],
+            "stagger": [0, 5]}
+    r = eval_batch(case)
+    r.key = f"name {name!r} {fmts} {csvf}"
+    r.nontrivial = True
+    r.nt_keys = []
+    r.sample = {"report_name": name, "formats": fmts, "csv": csvf}
+    return r
+
+
 class contextlib_suppress:
     def __enter__(self):
         return self
@@ -251,4 +332,6 @@ def campaigns(tier):
     return [
         Campaign("batches", "hyp", evaluate=eval_batch, strategy=lambda: batches(24 if q else 96), n=16 if q else 400, shards=4 if q else 8, shrink=not q,
                  floor_nontrivial=0.2, describe="concurrent batches in one cwd/TMPDIR + traced solitary runs of every distinct invocation"),
+        Campaign("report_names", "enum", evaluate=eval_name, items=name_items, exhaustive=True,
+                 describe="every hostile / ordinary report name of a fixed list x formats x output format: traced solitary run + a file/stdin pair"),
     ]
